@@ -1,2 +1,74 @@
+// spec functions and lemmas for unit em (C18), taken from the property statement:
+//   id(now) = floor((now - genesis)/duration);  start(id) = genesis + id*duration
 verus! {
+
+pub open spec fn now_s(env: Env) -> nat { (env.block.time.nanos as nat) / 1_000_000_000 }
+pub open spec fn epoch_start_s(c: EpochConfig, id: nat) -> nat { c.genesis_epoch@ + id * c.duration@ }
+pub open spec fn epoch_id_at(c: EpochConfig, now: nat) -> nat { ((now - c.genesis_epoch@) / (c.duration@ as int)) as nat }
+pub open spec fn ownership_unchanged(a: Storage, b: Storage) -> bool {
+    a.owner == b.owner && a.pending_owner == b.pending_owner && a.pending_expiry == b.pending_expiry
+}
+/// state invariant of the epoch manager: a stored configuration has duration >= 1 day
+pub open spec fn em_inv(s: Storage) -> bool {
+    s.config@ is Some ==> s.config@->Some_0.epoch_config.duration@ >= 86400
+}
+
+/// (nanos - g*1e9)/1e9 == nanos/1e9 - g   when g <= nanos/1e9
+pub proof fn lemma_seconds_since(nanos: nat, g: nat)
+    ensures g <= nanos / 1_000_000_000 ==> g * 1_000_000_000 <= nanos
+        && ((nanos - g * 1_000_000_000) as nat) / 1_000_000_000 == nanos / 1_000_000_000 - g,
+{
+    if g <= nanos / 1_000_000_000 {
+        assert(g * 1_000_000_000 <= nanos && ((nanos - g * 1_000_000_000) as nat) / 1_000_000_000 == nanos / 1_000_000_000 - g)
+            by (nonlinear_arith) requires g <= nanos / 1_000_000_000;
+    }
+}
+
+// @lemma now_in_epoch [C18]
+pub proof fn lemma_now_in_epoch(g: nat, d: nat, t: nat)
+    ensures d > 0 && g <= t ==> ({
+        let id = ((t - g) / (d as int)) as nat;
+        g + id * d <= t && t < g + (id + 1) * d && id * d <= t - g
+    }),
+{
+    if d > 0 && g <= t {
+        let x = (t - g) as int;
+        let dd = d as int;
+        vstd::arithmetic::div_mod::lemma_fundamental_div_mod(x, dd);
+        vstd::arithmetic::div_mod::lemma_mod_bound(x, dd);
+        let q = x / dd;
+        assert(x == dd * q + x % dd);
+        assert(q >= 0) by { vstd::arithmetic::div_mod::lemma_div_pos_is_pos(x, dd); }
+        assert(dd * q == q * dd) by (nonlinear_arith);
+        assert((q + 1) * dd == q * dd + dd) by (nonlinear_arith);
+    }
+}
+
+// @lemma epoch_id_monotone [C18]
+pub proof fn lemma_epoch_id_monotone(g: nat, d: nat, t1: nat, t2: nat)
+    requires d > 0, g <= t1, t1 <= t2,
+    ensures (t1 - g) / (d as int) <= (t2 - g) / (d as int),
+{
+    let a = (t1 - g) as nat;
+    let b = (t2 - g) as nat;
+    assert(a / d <= b / d) by (nonlinear_arith) requires a <= b, d > 0;
+}
+
+// @lemma epoch_id_step [C18]
+pub proof fn lemma_epoch_id_step(g: nat, d: nat, t: nat)
+    requires d > 0, g <= t,
+    ensures (t + d - g) / (d as int) == (t - g) / (d as int) + 1,
+{
+    let a = (t - g) as nat;
+    assert((a + d) / d == a / d + 1) by (nonlinear_arith) requires d > 0;
+}
+
+// @lemma epoch_starts_partition [C18]
+/// consecutive epochs tile the time line: start(id+1) = start(id) + duration
+pub proof fn lemma_epoch_starts_partition(c: EpochConfig, id: nat)
+    ensures epoch_start_s(c, id + 1) == epoch_start_s(c, id) + c.duration@,
+{
+    assert((id + 1) * c.duration@ == id * c.duration@ + c.duration@) by (nonlinear_arith);
+}
+
 } // verus!
